@@ -313,7 +313,17 @@ impl<'a, 'c> WorldGen<'a, 'c> {
         }
         match t {
             Type::List(item) => {
-                let n = if depth >= 3 { self.c.small(1) } else { self.c.small(self.max_len) };
+                // now and then a LONG list of leaves at the top level (hundreds of items: chunked or
+                // periodic behaviour of list completion only shows there)
+                let leaf_items = !item.is_list() && self.schema.is_leaf(item.inner_name());
+                let n = if depth == 0 && leaf_items && self.c.bool(8) {
+                    self.labels.insert("w:long-list");
+                    200 + self.c.choose(500)
+                } else if depth >= 3 {
+                    self.c.small(1)
+                } else {
+                    self.c.small(self.max_len)
+                };
                 self.labels.insert(if depth > 0 { "w:nested-list" } else { "w:list" });
                 let mut items = vec![];
                 for _ in 0..n {
